@@ -1,5 +1,5 @@
 # Table consumed by gen_manifest.py (exec'd).  One chk(...) per claimed property.
-HOOK_COMMITS = ["274ee918", "1925d4ab", "3680c81b", "e2c6273e"]
+HOOK_COMMITS = ["274ee918", "1925d4ab", "3680c81b", "e2c6273e", "41c2a203", "17c18b6e", "f1d44ebe"]
 
 chk("C09", "algebraic-law monitor on the real issuance functions (additivity, totals) over an exhaustive boundary grid + seeded random triples",
     "Runs the real CalcUnbindOng/CalcGovernanceUnbindOng on every triple of a ~70-point boundary grid per network id (interval edges, both deadlines ±2, 0, 2^32-1) and on seeded random triples, asserting F(s,e)=F(s,m)+F(m,e), F(s,s)=0, and holder+governance totals = ONG supply, also through random piecewise settlements. Exploration: the grid is exhaustive over the listed boundaries, the rest is sampled.",
